@@ -68,8 +68,19 @@ WhyNot(W, g, n) ==
        ELSE "busy-before-hard"
 C01v(line, pre) ==
   UNION {{<<"C01", WhyNot(pre, g, n), g, n>> : n \in {m \in TermAttempt(line, g) \cup DelAttempt(line, g) : ~Removable(pre, g, m)}} : g \in Groups(pre)}
+\* "because the taint time is stored on the node the rule holds unchanged across controller restarts": the twin run scans an exact
+\* clone of the world (same nodes, pods, cloud state, same lock / delta memory) with a controller object built afresh, as after a
+\* restart; whatever that controller removes must satisfy the same rule in the same cluster view.  (What the two controllers remove
+\* is not required to be equal: the statement bounds removals, it does not make them a function of the view.)
+C01r(line, pre) ==
+  UNION {IF "twin" \in DOMAIN line /\ g \in DOMAIN line.twin.cloneTerminated
+         THEN {<<"C01", "restarted-controller:" \o WhyNot(pre, g, m), g, m>> :
+                 m \in {line.twin.cloneTerminated[g][i] : i \in 1..Len(line.twin.cloneTerminated[g])} \ {x \in Listed(pre, g) : Removable(pre, g, x)}}
+         ELSE {} : g \in Groups(pre)}
 C01f(line, pre) ==
-  (IF line.crash THEN {"C01:crashed-mid-scan"} ELSE {}) \cup
+  (IF line.crash THEN {"C01:crashed-mid-scan"} ELSE {}) \cup (IF "twin" \in DOMAIN line /\ NoFaults(line) THEN {"C01:restart-twin"} ELSE {}) \cup
+  (IF \E g \in Groups(pre) : Scanned(line, g) /\ Cardinality(Listed(pre, g)) > MaxOf(line, pre, g) /\ \E n \in Listed(pre, g) : V(pre, g)[n].taint.has /\ PodsOn(pre.groups[g], n) > 0
+   THEN {"C01:over-max-with-busy-tainted-node"} ELSE {}) \cup
   UNION {LET rem == TermOK(line, g) IN
          {IF ClauseC(pre, g, n) THEN "C01:removed-c" ELSE IF ClauseA(pre, g, n) THEN "C01:removed-a" ELSE "C01:removed-b" : n \in {m \in rem : Removable(pre, g, m)}}
          \cup {"C01:kept-" \o WhyNot(pre, g, n) : n \in {m \in Listed(pre, g) \ rem :
@@ -514,14 +525,14 @@ C20f(line, pre, exp) ==
 
 -----------------------------------------------------------------------------
 Violations(line, pre, post, exp) ==
-  C01v(line, pre) \cup C02v(line, pre) \cup C03v(line, pre, post) \cup C04v(line, pre, post, exp) \cup C05v(line, pre) \cup C05z(line, pre)
+  C01v(line, pre) \cup C01r(line, pre) \cup C02v(line, pre) \cup C03v(line, pre, post) \cup C04v(line, pre, post, exp) \cup C05v(line, pre) \cup C05z(line, pre)
   \cup C06v(line, pre) \cup C07v(line, pre, post, exp) \cup C08v(line, pre) \cup C09v(line, pre) \cup C10v(line, pre, exp)
   \cup C11v(line, pre) \cup C12v(line, pre) \cup C12x(line, pre, exp) \cup C12g(line, pre) \cup C13v(line, pre) \cup C15v(line, pre, post) \cup C18v(line, pre, post) \cup C19v(line, pre, exp) \cup C20v(line, pre, exp)
 
 \* only the predicates of the given property ids (the model asserts one property at a time: evaluating all of them on every
 \* outcome was the dominant cost of model checking)
 ViolationsFor(ids, line, pre, post, exp) ==
-  (IF "C01" \in ids THEN C01v(line, pre) ELSE {}) \cup (IF "C02" \in ids THEN C02v(line, pre) ELSE {})
+  (IF "C01" \in ids THEN C01v(line, pre) \cup C01r(line, pre) ELSE {}) \cup (IF "C02" \in ids THEN C02v(line, pre) ELSE {})
   \cup (IF "C03" \in ids THEN C03v(line, pre, post) ELSE {}) \cup (IF "C04" \in ids THEN C04v(line, pre, post, exp) ELSE {})
   \cup (IF "C05" \in ids THEN C05v(line, pre) \cup C05z(line, pre) ELSE {}) \cup (IF "C06" \in ids THEN C06v(line, pre) ELSE {})
   \cup (IF "C07" \in ids THEN C07v(line, pre, post, exp) ELSE {}) \cup (IF "C08" \in ids THEN C08v(line, pre) ELSE {})
